@@ -379,6 +379,10 @@ func c12(env *Env, rep *Report) {
 			rep.sample(map[string]any{"case": c.String(), "verdict": v})
 		}
 	}
+	if gwBin() != "" && env.Shard == 0 {
+		bindCore(rep, "C12")
+		bindModes(rep, "C12")
+	}
 	rep.Bounds = map[string]any{"cases": len(cases)}
 	rep.add("distinct", int64(distinct))
 	rep.add("states", int64(distinct))
